@@ -287,7 +287,13 @@ class Exec:
         isptr = False
         vals = []
         for g, q in p.sym:
+            reg = st.mem.get(q.r)
+            if reg is not None and reg.size is not None and not (0 <= q.o and q.o + n <= reg.size):
+                s.oblig.append((list(st.pc), z3.Not(g), 'load through %s+%d stays in bounds' % (reg.name, q.o)))
+                continue
             vals.append((g, s.load(st, q, n)))
+        if not vals:
+            raise Abort('symbolic load: every alternative out of bounds')
         if any(isinstance(v, Ptr) for _, v in vals):
             if not all(isinstance(v, Ptr) for _, v in vals):
                 raise Abort('mixed pointer/int symbolic load')
@@ -303,6 +309,10 @@ class Exec:
 
     def store_sym(s, st, p, n, v):
         for g, q in p.sym:
+            reg = st.mem.get(q.r)
+            if reg is not None and reg.size is not None and not (0 <= q.o and q.o + n <= reg.size):
+                s.oblig.append((list(st.pc), z3.Not(g), 'store through %s+%d stays in bounds' % (reg.name, q.o)))
+                continue
             old = s.load(st, q, n)
             if isinstance(old, Ptr) or isinstance(v, Ptr):
                 raise Abort('symbolic store of pointer')
@@ -373,7 +383,17 @@ class Exec:
                     cur = [(g, o + d) for g, o in cur]
                 else:
                     if bound is None or bound > 1024:
-                        raise Abort('unbounded symbolic index')
+                        # pointer arithmetic with a symbolic index: enumerate the element slots of the (small) region
+                        reg = st.mem.get(q.r) if q.r != 'F' else None
+                        if reg is None or reg.size is None or reg.size > 8192 or len(cur) != 1 or es == 0:
+                            raise Abort('unbounded symbolic index')
+                        g, o = cur[0]
+                        lo = -(o // es)
+                        hi = (reg.size - o) // es       # one-past allowed as an address
+                        ivs = iv if it.bits == 64 else z3.SignExt(64 - it.bits, iv)
+                        s.oblig.append((list(st.pc), z3.And(ivs >= lo, ivs <= hi), 'pointer index stays inside %s' % reg.name))
+                        cur = [((ivs == i) if g is None else z3.And(g, ivs == i), o + i * es) for i in range(lo, hi + 1)]
+                        continue
                     s.oblig.append((list(st.pc), z3.ULT(iv, bound), 'index<%d' % bound))
                     cur = [((iv == i) if g is None else z3.And(g, iv == i), o + i * es) for g, o in cur for i in range(bound)]
             res.extend((g, Ptr(q.r, o)) for g, o in cur)
@@ -947,7 +967,7 @@ def step(s, fr, st, x):
         _, d, t, a, atomic = x
         p = s.val(st, fr, None, a)
         if t.k in ('int', 'ptr'):
-            n = s.m.size(t)
+            n = (t.bits + 7) // 8 if t.k == 'int' else 8
             v = s.load(st, p, n, fr.fn.name)
             if t.k == 'int':
                 if isinstance(v, Ptr):
@@ -970,7 +990,7 @@ def step(s, fr, st, x):
         p = s.val(st, fr, None, a)
         V = s.val(st, fr, t, v)
         if t.k == 'int':
-            n = s.m.size(t)
+            n = (t.bits + 7) // 8
             if t.bits == 1:
                 V = V if is_c(V) else z3.If(V, z3.BitVecVal(1, 8), z3.BitVecVal(0, 8))
             elif t.bits % 8 and not is_c(V):
